@@ -50,6 +50,9 @@ CHECKS = {
  "C19": ("7/C19", "TLC model check of List.tla + TLC validation of tree-shaped recordings of the real lists",
          "TLC checks List!Out against 'never empty' and 'no edit loses, duplicates or reorders the other elements'; every edit sequence (Unshift, Append, Shift, Pop, InsertAfter/InsertBefore/Delete/Replace on every value used so far and an absent one, handles from Find immediately before use) to depth 4 (thorough 5: 2.1 million nodes) on both list types plus seeded long runs that shrink to one element and regrow is executed on the real code with Each (twice, around the Finds), First, Last and Find of every value observed after every call; a panic is a result no outcome allows.",
          "bounded scope plus seeded long runs; distinct inserted values and fresh handles as the property's quantifier states; return values of Shift/Pop are not constrained (the statement does not)"),
+ "C08": ("7/C08", "TLC model check of ExpCache.tla + TLC validation of tree-shaped recordings of the real cache running on a virtual clock",
+         "the library's `time` import is redirected (scratch copy only) to a virtual clock owned by the driver, so every placement of a call relative to a deadline or to a cleanup tick is enumerated exactly instead of slept for; TLC checks ExpCache!Out against the wording over ghost history (live entries kept with their latest value, no-expiry entries never purged, expired entries gone within one cleanup interval, Set/Update/MapToCache/DeleteExpired rules); every sequence of 36 operations (Set/Update x 3 keys x durations default/none/2/10, rejected values, Delete, Flush, DeleteExpired, MapToCache incl. a duplicate key and a rejected value, Tick 1/2/5) to depth 3 (thorough 4) under 6 configurations (default -1/0/4 x cleanup interval 0/6, the real cleanup goroutine driven by virtual ticker ticks with a completion barrier) plus seeded long runs over 8 keys is executed on the real code with Count, List, Get and IsExpired of every key observed after every call.",
+         "exact in virtual time only (no wall-clock pass); the spec is permissive where the statement is: an observation exactly at a deadline, Count/List of expired-unpurged entries, Delete's result for a non-live key, the moment cleanup removes an expired entry (any time after the deadline, at the latest one interval after it)"),
  "C05": ("7/C05", "TLC model check of Queue.tla + TLC validation of tree-shaped recordings of the real queues",
          "TLC checks Queue!Out against the FIFO/exactly-once/size wording exhaustively (3 values, 7 ops); every Enqueue/Dequeue/Clear sequence to depth 6 (thorough 8) on both implementations plus long seeded drain/refill runs is executed on the real code, with Size/Peek/Search observed after every call and a drain at every node, and TLC accepts the recording only if every call is an outcome of Queue!Out.",
          "bounded scope (depth, 3-value alphabet) plus seeded long runs; observers are the public API; TLC, the Go toolchain and the driver's projection are trusted"),
